@@ -745,6 +745,66 @@ func c14Blacklist(c *fw.Ctx) {
 	c.Cell("blacklist/served-after-expiry")
 }
 
+// c14BlacklistReadd: an address that is black-listed again while still listed. Whatever the merge
+// rule (latest call wins, or the later expiry wins), after add(1 s) immediately followed by
+// add(6 s) the address is listed for 6 s: blocked at 2.5..4.2 s (well past the first entry's expiry,
+// well before the second's), served again ≥ 8.2 s.
+func c14BlacklistReadd(c *fw.Ctx) {
+	conf := srv.Conf{Hls: true, HlsFragMs: 1000, HlsFragNum: 6, HlsDelThr: 6, Api: true, Flv: true}
+	s, stop := c14StartServer(c, conf, "blr")
+	if s == nil {
+		return
+	}
+	defer stop()
+	bg := fmt.Sprintf("blr%d", c.Index)
+	pub, err := c14StartBg(s, bg, "", c.SubRng("bg"))
+	if err != nil {
+		c.Inconclusive("background publisher: %v", err)
+		return
+	}
+	defer pub.Close()
+	get := func() (int, bool) {
+		st, _, body, err := srv.HttpGet(s.HttpAddr(), "/hls/"+bg+".m3u8", 3*time.Second)
+		if err != nil {
+			return 0, false
+		}
+		return st, strings.Contains(string(body), "#EXTM3U")
+	}
+	if _, ok := get(); !ok {
+		c.Inconclusive("playlist not served before the blacklist test")
+		return
+	}
+	c.Describe("blacklist 127.0.0.1 for 1 s, then again for 6 s")
+	srv.HttpPostJson(s.ApiAddr(), "/api/ctrl/add_ip_blacklist", `{"ip":"127.0.0.1","duration_sec":1}`, 3*time.Second)
+	t0 := time.Now()
+	srv.HttpPostJson(s.ApiAddr(), "/api/ctrl/add_ip_blacklist", `{"ip":"127.0.0.1","duration_sec":6}`, 3*time.Second)
+	if time.Since(t0) > 500*time.Millisecond {
+		c.Inconclusive("second add_ip_blacklist call took %.2f s", time.Since(t0).Seconds())
+		return
+	}
+	time.Sleep(time.Until(t0.Add(2500 * time.Millisecond)))
+	for time.Since(t0) < 4200*time.Millisecond {
+		st, served := get()
+		if time.Since(t0) >= 4200*time.Millisecond {
+			break
+		}
+		c.Eval(1)
+		if served || st == 200 {
+			c.Violate("blacklist/readd-served-before-expiry", fmt.Sprintf("address black-listed for 1 s and then again for 6 s got the playlist %.2f s after the second call (status %d)", time.Since(t0).Seconds(), st), nil)
+			return
+		}
+		time.Sleep(200 * time.Millisecond)
+	}
+	c.Cell("blacklist/readd-blocked-before-expiry")
+	time.Sleep(time.Until(t0.Add(8200 * time.Millisecond)))
+	if _, served := get(); !served {
+		c.Violate("blacklist/readd-still-blocked-after-expiry", fmt.Sprintf("playlist still refused %.2f s after add_ip_blacklist(6 s)", time.Since(t0).Seconds()), nil)
+		return
+	}
+	c.Eval(1)
+	c.Cell("blacklist/readd-served-after-expiry")
+}
+
 // ------------------------------------------------------------------------------------------
 
 func insideRoot(root, p string) bool {
@@ -930,19 +990,19 @@ func init() {
 	fw.Register(&fw.Prop{
 		ID: "C14",
 		NumCases: func(tier string, seed int64) int {
-			n := len(c14Cells()) + 2 + 1 + 1 + 1 + 1
+			n := len(c14Cells()) + 2 + 1 + 1 + 1 + 1 + 1
 			if tier == "thorough" {
 				return n * 4
 			}
 			return n
 		},
 		CaseTimeout: func(string) time.Duration { return 5 * time.Minute },
-		Rule: "whole-server runs: (a) simple-auth matrix: 12 flag configurations (each flag alone, all on/off, override secret lower-case and with upper-case letters) × 9 protocol/direction requests (rtmp pub/sub, http-flv, ws-flv, http-ts, rtsp ANNOUNCE/DESCRIBE, hls m3u8 in both URL shapes) × 14 secret forms (absent, empty, wrong, right lower/UPPER, right for another stream, surrounded by other parameters, look-alike parameter name, duplicated right/wrong, malformed %zz query, override); expected outcome from a table written from the property text (three-valued: duplicated right+wrong and right-next-to-malformed are recorded, not judged); a refused publisher must not be listed by the stat API; (b) RTSP auth: Basic and Digest × none / right / right after 401 / wrong password / wrong user / other method / malformed (foreign nonce and other-uri replay recorded only); (c) kick of each session kind → socket EOF; kick of an HLS sub session (hash key on) that keeps polling → refused within 4 s; (d) blacklist 2 s: blocked ≤0.9 s, served ≥4.2 s, nothing judged in between; (e) HLS file server: ≈300 traversal paths sent as raw HTTP with decoy files outside the root — no outside content returned, no outside path opened (instrumented file-system layer); (f) 14 hostile stream names via RTMP, RTSP and the customize API with HLS and both recorders on — no file created outside the configured directories. cell = clause × protocol × form.",
+		Rule: "whole-server runs: (a) simple-auth matrix: 12 flag configurations (each flag alone, all on/off, override secret lower-case and with upper-case letters) × 9 protocol/direction requests (rtmp pub/sub, http-flv, ws-flv, http-ts, rtsp ANNOUNCE/DESCRIBE, hls m3u8 in both URL shapes) × 14 secret forms (absent, empty, wrong, right lower/UPPER, right for another stream, surrounded by other parameters, look-alike parameter name, duplicated right/wrong, malformed %zz query, override); expected outcome from a table written from the property text (three-valued: duplicated right+wrong and right-next-to-malformed are recorded, not judged); a refused publisher must not be listed by the stat API; (b) RTSP auth: Basic and Digest × none / right / right after 401 / wrong password / wrong user / other method / malformed (foreign nonce and other-uri replay recorded only); (c) kick of each session kind → socket EOF; kick of an HLS sub session (hash key on) that keeps polling → refused within 4 s; (d) blacklist 2 s: blocked ≤0.9 s, served ≥4.2 s, nothing judged in between; re-listing (1 s then at once 6 s): blocked at 2.5–4.2 s, served ≥8.2 s; (e) HLS file server: ≈300 traversal paths sent as raw HTTP with decoy files outside the root — no outside content returned, no outside path opened (instrumented file-system layer); (f) 14 hostile stream names via RTMP, RTSP and the customize API with HLS and both recorders on — no file created outside the configured directories. cell = clause × protocol × form.",
 		Assumptions: []string{"admission is observed as pub_start/sub_start notification, HTTP status line, RTSP status, or playlist bytes; refusal as connection close / non-200 / no playlist bytes", "case variants of the override secret and Digest nonce freshness are not defined by the property: recorded, not judged"},
 		MinCells: 20,
 		Run: func(c *fw.Ctx, i int) {
 			cells := c14Cells()
-			n := len(cells) + 6
+			n := len(cells) + 7
 			k := i % n
 			switch {
 			case k < len(cells):
@@ -958,6 +1018,8 @@ func init() {
 				c14KickHls(c)
 			case k == len(cells)+3:
 				c14Blacklist(c)
+			case k == len(cells)+5:
+				c14BlacklistReadd(c)
 			case k == len(cells)+4:
 				c14HlsPaths(c)
 				c.Sample(map[string]interface{}{"kind": "hls-path-confinement"})
